@@ -57,6 +57,11 @@ class Gen:
 
     # ------------------------------------------------------------------ sweeps
     def var_spec(self, allow_ctx_key: Optional[str] = None, plain_list_ok: bool = True) -> Any:
+        if self.rng.random() < 0.05:
+            # values of tiny magnitude (tolerances, step sizes): 1e-9 is a value, not "zero up to noise"
+            if self.rng.random() < 0.5:
+                return {"lo": 0.0, "hi": self.rng.choice([4e-9, 8e-9]), "steps": self.rng.randint(3, 5)}
+            return {"lo": 1e-9, "hi": 1e-6, "steps": self.rng.randint(2, 4), "scale": "log"}
         r = self.rng.random()
         if allow_ctx_key and r < 0.25:
             return {"from_context": allow_ctx_key}
@@ -498,6 +503,11 @@ def sweep_case(g: "Gen") -> dict:
     name = rng.choice({"source": SWEEP_SRCS, "op": SWEEP_OPS, "probe": SWEEP_PROBES}[kind])
     comp = rm.COMPONENTS[name]
     blk = g.sweep_block(name, list_keys)
+    if g.chance(0.15):
+        # the key a sweep publishes (<var>_values) ALREADY EXISTS in the context with another sequence (an earlier sweep
+        # over the same variable name, a previous run on the same context): the sweep publishes ITS sequence
+        v0 = sorted(blk["variables"])[0]
+        ctx[f"{v0}_values"] = [99.0, 98.0, 97.0][: rng.randint(1, 3)]
     node: dict = {"processor": name, "derive": {"parameter_sweep": blk}}
     if kind == "probe":
         node["context_key"] = rng.choice(["plist", "results", "t_values", "a_values"])
